@@ -194,8 +194,8 @@ impl Check for C02 {
             ..GenCfg::default()
         };
         vec![
-            Family::bytes("programs", 600, tier.pick(500, 20_000), move |cx, i| case(cx, i, layouts, &cfg)),
-            Family::bytes("large-programs", 1500, tier.pick(100, 4_000), move |cx, i| case(cx, i, layouts, &cfg2)),
+            Family::bytes("programs", 600, tier.pick(3_000, 40_000), move |cx, i| case(cx, i, layouts, &cfg)),
+            Family::bytes("large-programs", 1500, tier.pick(500, 8_000), move |cx, i| case(cx, i, layouts, &cfg2)),
             Family::replay_only("direct", direct),
         ]
     }
